@@ -308,4 +308,325 @@ theorem waitLoop_cons (nid : Nat) (filter : Option Nat) (deadline : Nat) (c : Co
     · simp only [hl, if_false]
       cases List.find? (matchesFilter filter) (x :: xs) <;> rfl
 
+
+/-! ### long histories: run-length frames and the linear runner -/
+
+/-- the entry that frame `i` of a run denotes -/
+def repEntry (code0 cstep reg0 ts0 i : Nat) : Entry :=
+  ⟨(code0 + i * cstep) % 65536, (reg0 + i) % 256,
+   [i % 256, i / 256 % 256, i / 65536 % 256, i / 16777216 % 256, (7 * i + 3) % 256], ts0 + i⟩
+
+theorem entryOfFrame_repFrame (code0 cstep reg0 i ts : Nat) :
+    entryOfFrame (repFrame code0 cstep reg0 i) ts =
+      some ⟨(code0 + i * cstep) % 65536, (reg0 + i) % 256,
+        [i % 256, i / 256 % 256, i / 65536 % 256, i / 16777216 % 256, (7 * i + 3) % 256], ts⟩ := by
+  simp only [entryOfFrame, repFrame, decode_eight]
+  have : (code0 + i * cstep) % 256 + 256 * ((code0 + i * cstep) / 256 % 256) =
+      (code0 + i * cstep) % 65536 := by omega
+  rw [this]
+
+theorem repEvs_no_reset (n code0 cstep reg0 ts0 : Nat) : Ev.reset ∉ repEvs n code0 cstep reg0 ts0 := by
+  simp [repEvs]
+
+theorem repEvs_delivered (nid n code0 cstep reg0 ts0 : Nat) :
+    (repEvs n code0 cstep reg0 ts0).filterMap (delivered nid) =
+      (List.range n).map (repEntry code0 cstep reg0 ts0) := by
+  unfold repEvs
+  rw [List.filterMap_map]
+  have : (delivered nid ∘ fun i => Ev.frame (repFrame code0 cstep reg0 i) (ts0 + i)) =
+      fun i => some (repEntry code0 cstep reg0 ts0 i) := by
+    funext i
+    simp [delivered, entryOfFrame_repFrame, repEntry]
+  rw [this, show (fun i => some (repEntry code0 cstep reg0 ts0 i)) = some ∘ repEntry code0 cstep reg0 ts0 from rfl,
+    List.filterMap_eq_map]
+
+/-- the counter of the linear runner is the length of its active list -/
+def Fast.WF (s : Fast) : Prop := s.nactive = s.ractive.length
+
+theorem fast_consumer_ofConsumer (c : Consumer) : (Fast.ofConsumer c).consumer = c := by
+  cases c
+  simp [Fast.ofConsumer, Fast.consumer]
+
+theorem fast_ofConsumer_WF (c : Consumer) : (Fast.ofConsumer c).WF := by
+  simp [Fast.ofConsumer, Fast.WF]
+
+theorem fast_onEmcy_spec (s : Fast) (d : Bytes) (ts : Nat) (h : s.WF) :
+    (s.onEmcy d ts).consumer = (onEmcy s.consumer d ts).1 ∧ (s.onEmcy d ts).WF ∧
+    (s.onEmcy d ts).rinv = (onEmcy s.consumer d ts).2.invoked.reverse ++ s.rinv ∧
+    (s.onEmcy d ts).nraised = s.nraised + (if (onEmcy s.consumer d ts).2.raised then 1 else 0) ∧
+    (s.onEmcy d ts).ralens = (onEmcy s.consumer d ts).1.active.length :: s.ralens := by
+  unfold Fast.WF at *
+  unfold Fast.onEmcy Emcy.onEmcy
+  cases he : entryOfFrame d ts with
+  | none => simp [Fast.consumer, h]
+  | some e =>
+    by_cases hr : isResetCode e.code = true
+    · simp [hr, record, Fast.consumer]
+    · simp [hr, record, Fast.consumer, h]
+
+theorem fast_step_spec (nid : Nat) (s : Fast) (ev : Ev) (h : s.WF) :
+    (s.step nid ev).consumer = (step nid s.consumer ev).1 ∧ (s.step nid ev).WF ∧
+    (s.step nid ev).rinv = (step nid s.consumer ev).2.invoked.reverse ++ s.rinv ∧
+    (s.step nid ev).nraised = s.nraised + (if (step nid s.consumer ev).2.raised then 1 else 0) ∧
+    (s.step nid ev).ralens = (step nid s.consumer ev).1.active.length :: s.ralens := by
+  cases ev with
+  | frame d ts => exact fast_onEmcy_spec s d ts h
+  | notify id d ts =>
+    by_cases hid : id = emcyCobId nid
+    · simp only [Fast.step, step, hid, if_true]; exact fast_onEmcy_spec s d ts h
+    · unfold Fast.WF at *
+      simp [Fast.step, step, hid, Fast.consumer, h]
+  | addCb k => unfold Fast.WF at *; simp [Fast.step, step, Fast.consumer, h]
+  | reset => unfold Fast.WF at *; simp [Fast.step, step, Fast.consumer]
+
+theorem runFast_cons (nid : Nat) (s : Fast) (e : Ev) (evs : List Ev) :
+    runFast nid s (e :: evs) = runFast nid (s.step nid e) evs := rfl
+
+theorem countRaised_cons (o : StepOut) (tr : List StepOut) :
+    countRaised (o :: tr) = (if o.raised then 1 else 0) + countRaised tr := by
+  unfold countRaised
+  by_cases h : o.raised = true <;> simp [h] <;> omega
+
+theorem runFast_spec_aux (nid : Nat) (evs : List Ev) (s : Fast) (h : s.WF) :
+    (runFast nid s evs).consumer = run nid s.consumer evs ∧ (runFast nid s evs).WF ∧
+    (runFast nid s evs).rinv.reverse = s.rinv.reverse ++ (trace nid s.consumer evs).flatMap (·.invoked) ∧
+    (runFast nid s evs).nraised = s.nraised + countRaised (trace nid s.consumer evs) ∧
+    (runFast nid s evs).ralens.reverse = s.ralens.reverse ++ activeLens nid s.consumer evs := by
+  induction evs generalizing s with
+  | nil => simp [runFast, run_nil, trace, activeLens, countRaised, h]
+  | cons e evs ih =>
+    obtain ⟨h1, h2, h3, h4, h5⟩ := fast_step_spec nid s e h
+    obtain ⟨i1, i2, i3, i4, i5⟩ := ih (s.step nid e) h2
+    rw [runFast_cons, run_cons, trace, activeLens, countRaised_cons, ← h1]
+    refine ⟨i1, i2, ?_, ?_, ?_⟩
+    · rw [i3, h3]; simp
+    · rw [i4, h4]; omega
+    · rw [i5, h5, h1]; simp
+
+/-! ### several waiting threads -/
+
+/-- the events of a schedule that reach the consumer -/
+def evsOf : List SEv → List Ev
+  | [] => []
+  | .ev e :: s => e :: evsOf s
+  | .runs _ _ :: s => evsOf s
+
+/-- what a step of the program does to the consumer -/
+def cStep (nid : Nat) (c : Consumer) : SEv → Consumer
+  | .ev e => (step nid c e).1
+  | .runs _ _ => c
+
+/-- … and to one thread, the consumer being in state `c` before the step -/
+def wStep (nid : Nat) (c : Consumer) (w : Waiter) : SEv → Waiter
+  | .ev e => if notifies nid e then w.mark else w
+  | .runs id now => if w.id = id then w.resume c now else w
+
+/-- one thread followed through a schedule, whatever other threads exist -/
+def wRun (nid : Nat) : Consumer → Waiter → List SEv → Waiter
+  | _, w, [] => w
+  | c, w, e :: s => wRun nid (cStep nid c e) (wStep nid c w e) s
+
+/-- a schedule as thread `id` sees it: the events between two of its returns from
+    `Condition.wait` are one wake-up; `.2` = what happened since its last return (or since `pend`) -/
+def viewFrom (id : Nat) : List Ev → List SEv → List Wake × List Ev
+  | pend, [] => ([], pend)
+  | pend, .ev e :: s => viewFrom id (pend ++ [e]) s
+  | pend, .runs j now :: s =>
+    if j = id then (⟨now, pend⟩ :: (viewFrom id [] s).1, (viewFrom id [] s).2) else viewFrom id pend s
+
+/-- every return of the thread from `Condition.wait` was caused by a received frame and came by
+    the deadline, and nobody called `reset()` -/
+def FairView (nid deadline : Nat) (v : List Wake × List Ev) : Prop :=
+  NoApiReset v.1 ∧ ∀ w ∈ v.1, arrivals nid w ≠ [] ∧ w.now ≤ deadline
+
+theorem sysStep_eq (nid : Nat) (c : Consumer) (ws : List Waiter) (e : SEv) :
+    sysStep nid (c, ws) e = (cStep nid c e, ws.map fun w => wStep nid c w e) := by
+  cases e with
+  | ev e =>
+    by_cases hn : notifies nid e = true
+    · simp [sysStep, cStep, wStep, hn, notifyAll]
+    · simp [sysStep, cStep, wStep, hn]
+  | runs id now => simp [sysStep, cStep, wStep]
+
+theorem run_evsOf_cons (nid : Nat) (c : Consumer) (e : SEv) (s : List SEv) :
+    run nid c (evsOf (e :: s)) = run nid (cStep nid c e) (evsOf s) := by
+  cases e <;> simp [evsOf, cStep, run_cons]
+
+theorem sysRun_eq (nid : Nat) (sched : List SEv) (c : Consumer) (ws : List Waiter) :
+    sysRun nid (c, ws) sched = (run nid c (evsOf sched), ws.map fun w => wRun nid c w sched) := by
+  induction sched generalizing c ws with
+  | nil => simp [sysRun, evsOf, wRun, run_nil]
+  | cons e s ih =>
+    have : sysRun nid (c, ws) (e :: s) = sysRun nid (sysStep nid (c, ws) e) s := rfl
+    rw [this, sysStep_eq, ih, run_evsOf_cons]
+    simp [wRun]
+
+theorem wStep_done {nid : Nat} {c : Consumer} {w : Waiter} {r : WaitRes} (h : w.res = some r) (e : SEv) :
+    wStep nid c w e = w := by
+  cases e with
+  | ev e => simp [wStep, Waiter.mark, h]
+  | runs id now => simp [wStep, Waiter.resume, h]
+
+theorem wRun_done {nid : Nat} {w : Waiter} {r : WaitRes} (h : w.res = some r) (sched : List SEv) (c : Consumer) :
+    wRun nid c w sched = w := by
+  induction sched generalizing c with
+  | nil => rfl
+  | cons e s ih => rw [wRun, wStep_done h, ih]
+
+theorem step_run_snoc (nid : Nat) (cp : Consumer) (pend : List Ev) (e : Ev) :
+    (step nid (run nid cp pend) e).1 = run nid cp (pend ++ [e]) := by
+  rw [run_append, run_cons, run_nil]
+
+/-- a blocked thread in the program behaves like the single-waiter model on its own view -/
+theorem wRun_blocked (nid id : Nat) (f : Option Nat) (d : Nat) (sched : List SEv) :
+    ∀ (cp : Consumer) (pend : List Ev) (nt : Bool),
+    (wRun nid (run nid cp pend) ⟨id, f, d, cp.log.length, nt, none⟩ sched).res =
+      if (waitLoop nid f d cp (viewFrom id pend sched).1).waits ≤ (viewFrom id pend sched).1.length
+      then some (waitLoop nid f d cp (viewFrom id pend sched).1).res else none := by
+  induction sched with
+  | nil => intro cp pend nt; simp [wRun, viewFrom, waitLoop]
+  | cons e s ih =>
+    intro cp pend nt
+    cases e with
+    | ev e =>
+      simp only [wRun, cStep, wStep, viewFrom, step_run_snoc]
+      by_cases hn : notifies nid e = true
+      · simp only [hn, if_true, Waiter.mark, Option.isNone_none]
+        exact ih cp (pend ++ [e]) true
+      · simp only [hn, if_false, Bool.false_eq_true]
+        exact ih cp (pend ++ [e]) nt
+    | runs j now =>
+      by_cases hj : j = id
+      · subst hj
+        simp only [wRun, cStep, wStep, viewFrom, if_true]
+        rw [waitLoop]
+        simp only [Waiter.resume, Option.isSome_none, Bool.false_eq_true, if_false, List.length_cons]
+        by_cases h1 : (run nid cp pend).log.length = cp.log.length
+        · simp only [h1, if_true]
+          rw [wRun_done (r := .nothing) rfl]
+          simp
+        · simp only [h1, if_false]
+          by_cases h2 : now > d
+          · simp only [h2, if_true]
+            rw [wRun_done (r := .nothing) rfl]
+            simp
+          · simp only [h2, if_false]
+            cases hf : ((run nid cp pend).log.drop cp.log.length).find? (matchesFilter f) with
+            | some x =>
+              simp only [Waiter.look]
+              rw [wRun_done (r := .entry x) rfl]
+              simp
+            | none =>
+              simp only [Waiter.look]
+              have := ih (run nid cp pend) [] false
+              rw [run_nil] at this
+              rw [this]
+              simp only [Nat.add_le_add_iff_right]
+      · have hj' : ¬ id = j := fun h => hj h.symm
+        simp only [wRun, cStep, wStep, viewFrom, hj, hj', if_false]
+        exact ih cp pend nt
+
+/-- no lost wake-up: a thread that is still blocked is marked runnable exactly when a frame was
+    received since it last looked -/
+theorem wRun_notified (nid id : Nat) (f : Option Nat) (d : Nat) (sched : List SEv) :
+    ∀ (cp : Consumer) (pend : List Ev),
+    (wRun nid (run nid cp pend) ⟨id, f, d, cp.log.length, pend.any (notifies nid), none⟩ sched).res = none →
+    (wRun nid (run nid cp pend) ⟨id, f, d, cp.log.length, pend.any (notifies nid), none⟩ sched).notified =
+      (viewFrom id pend sched).2.any (notifies nid) := by
+  induction sched with
+  | nil => intro cp pend _; simp [wRun, viewFrom]
+  | cons e s ih =>
+    intro cp pend
+    cases e with
+    | ev e =>
+      simp only [wRun, cStep, wStep, viewFrom, step_run_snoc]
+      have hany : (pend ++ [e]).any (notifies nid) = (pend.any (notifies nid) || notifies nid e) := by simp
+      by_cases hn : notifies nid e = true
+      · simp only [hn, if_true, Waiter.mark, Option.isNone_none]
+        have := ih cp (pend ++ [e])
+        rw [hany, hn, Bool.or_true] at this
+        exact this
+      · simp only [hn, if_false, Bool.false_eq_true]
+        have := ih cp (pend ++ [e])
+        have hn' : notifies nid e = false := by simpa using hn
+        rw [hany, hn', Bool.or_false] at this
+        exact this
+    | runs j now =>
+      by_cases hj : j = id
+      · subst hj
+        simp only [wRun, cStep, wStep, viewFrom, if_true]
+        simp only [Waiter.resume, Option.isSome_none, Bool.false_eq_true, if_false]
+        by_cases h1 : (run nid cp pend).log.length = cp.log.length
+        · simp only [h1, if_true]
+          rw [wRun_done (r := .nothing) rfl]
+          intro h; cases h
+        · simp only [h1, if_false]
+          by_cases h2 : now > d
+          · simp only [h2, if_true]
+            rw [wRun_done (r := .nothing) rfl]
+            intro h; cases h
+          · simp only [h2, if_false]
+            cases hf : ((run nid cp pend).log.drop cp.log.length).find? (matchesFilter f) with
+            | some x =>
+              simp only [Waiter.look]
+              rw [wRun_done (r := .entry x) rfl]
+              intro h; cases h
+            | none =>
+              simp only [Waiter.look]
+              have := ih (run nid cp pend) []
+              rw [run_nil] at this
+              simpa using this
+      · have hj' : ¬ id = j := fun h => hj h.symm
+        simp only [wRun, cStep, wStep, viewFrom, hj, hj', if_false]
+        exact ih cp pend
+
+/-- the view cuts the schedule's events into pieces and loses none -/
+theorem viewFrom_evs (id : Nat) (sched : List SEv) : ∀ pend : List Ev,
+    (viewFrom id pend sched).1.flatMap (·.evs) ++ (viewFrom id pend sched).2 = pend ++ evsOf sched := by
+  induction sched with
+  | nil => intro pend; simp [viewFrom, evsOf]
+  | cons e s ih =>
+    intro pend
+    cases e with
+    | ev e => simp only [viewFrom, evsOf]; rw [ih]; simp
+    | runs j now =>
+      by_cases hj : j = id
+      · simp only [viewFrom, hj, if_true, evsOf, List.flatMap_cons, List.append_assoc]
+        rw [ih []]; simp
+      · simp only [viewFrom, hj, if_false, evsOf]; exact ih pend
+
+theorem arrivals_flatMap (nid : Nat) (ws : List Wake) :
+    ws.flatMap (arrivals nid) = (ws.flatMap (·.evs)).filterMap (delivered nid) := by
+  induction ws with
+  | nil => rfl
+  | cons w ws ih => simp [List.flatMap_cons, List.filterMap_append, arrivals, ih]
+
+/-- under a fair view the single-waiter loop returns exactly when a matching entry has arrived,
+    and then with the first one -/
+theorem waitLoop_fair (nid : Nat) (f : Option Nat) (d : Nat) (ws : List Wake) :
+    ∀ c : Consumer, NoApiReset ws → (∀ w ∈ ws, arrivals nid w ≠ [] ∧ w.now ≤ d) →
+    (if (waitLoop nid f d c ws).waits ≤ ws.length then some (waitLoop nid f d c ws).res else none) =
+      ((ws.flatMap (arrivals nid)).find? (matchesFilter f)).map WaitRes.entry := by
+  induction ws with
+  | nil => intro c _ _; simp [waitLoop]
+  | cons w ws ih =>
+    intro c hr hf
+    have hw : Ev.reset ∉ w.evs := hr w (by simp)
+    obtain ⟨hne, hnow⟩ := hf w (by simp)
+    have ih' := ih (run nid c w.evs) (fun w' hw' => hr w' (by simp [hw']))
+      (fun w' hw' => hf w' (by simp [hw']))
+    rw [waitLoop_cons nid f d c w ws hw]
+    have he : (arrivals nid w).isEmpty = false := by
+      cases h : arrivals nid w with
+      | nil => exact absurd h hne
+      | cons _ _ => rfl
+    have hl : ¬ w.now > d := by omega
+    simp only [he, hl, if_false, Bool.false_eq_true, List.flatMap_cons, List.find?_append,
+      List.length_cons]
+    cases hfind : (arrivals nid w).find? (matchesFilter f) with
+    | some e => simp
+    | none =>
+      simp only [Option.none_or, Nat.add_le_add_iff_right]
+      exact ih'
+
 end Canopen.Emcy
